@@ -267,6 +267,15 @@ def run(ctx):
     hbin = build.harness(ctx, 'release')
     drv = build.model_driver(ctx)
     cases = [('tok', '(() (%s))' % ' '.join(str(ord(c)) for c in t)) for t in texts]
+    # the same spellings inside formulas, evaluated: a word that became a keyword is a variable that can no longer be
+    # written, a character pair that became an operator changes which texts are formulas
+    ev, seen = [], set()
+    for k in [t for t in texts if len(t) <= 12 and ' ' not in t]:
+        for t in (k, 'a & %s b' % k, '%s a' % k, 'a %s' % k, 'a %s b' % k, '(%s) | a' % k):
+            if t not in seen:
+                seen.add(t)
+                ev.append(t)
+    cases += [('eval', '(() (%s))' % ' '.join(str(ord(c)) for c in t)) for t in ev]
     summary, mism = suites.compare_cases(ctx, hbin, drv, cases)
     info['candidate_texts'] = len(cases)
     info['differing'] = len(mism)
